@@ -26,5 +26,6 @@ func main() {
 	harness.Main("C11", "fault_enumeration",
 		harness.Layer{Name: "pkg", Run: layerPkg},
 		harness.Layer{Name: "real", Run: layerReal},
+		harness.Layer{Name: "leave", Run: layerLeave},
 	)
 }
